@@ -108,13 +108,24 @@ def rules(fx, rep):
             return False
         chain_fns = set()
 
+        def is_power_chain(p):
+            # an addition chain: a branch-free sequence of field squarings / multiplications on its two parameters
+            bq = fx.body(p)
+            if bq is None or bq.arg_count != 2:
+                return False
+            cs_ = [callee(t_) or {} for _, t_ in bq.calls()]
+            plumbing = ('std::iter::IntoIterator', 'std::iter::Iterator', 'std::clone::Clone')
+            field = [c_ for c_ in cs_ if c_.get('trait') not in plumbing]
+            return bool(field) and all(c_.get('trait') == 'ff::Field' and c_.get('name') in ('square', 'mul_assign') for c_ in field)
+
         def inline(p):
             f = fx.fn(p)
             ok = f is not None and not f.get('impl_self_ty') and p != helper and f['kind'] == 'Fn'
-            if ok:
+            if ok and is_power_chain(p):
                 chain_fns.add(p)
             return ok
         I2 = exp.Interp(fx, 'mul', inline=inline, extra_transfer=tr)
+        I2.fork_inlined = True
         try:
             res = I2.run(path, [('byref', at('t'))])
         except (exp.NotDerivable, exp.Budget) as e:
@@ -152,11 +163,19 @@ def rules(fx, rep):
             Xs, Ys, Zs = subst(X, rel), subst(Y, rel), subst(Zc, rel)
             x_aff = Xs.add(Zs.scale(-2))
             y_aff = Ys.add(Zs.scale(-3))
-            eqs = [l for l in pth.labels if isinstance(l[0], tuple) and l[0][0] == 'eq']
+            # candidate tests in either spelling: `a == b` taken, or `a != b` not taken
+            labels_n = []
+            for l in pth.labels:
+                if isinstance(l[0], tuple) and l[0] and l[0][0] in ('eq', 'ne'):
+                    equal = (l[1] != 0) == (l[0][0] == 'eq')
+                    labels_n.append((('eq',) + tuple(l[0][1:]), 1 if equal else 0))
+                else:
+                    labels_n.append(l)
+            eqs = [l for l in labels_n if isinstance(l[0], tuple) and l[0][0] == 'eq']
             true_eqs = [l for l in eqs if l[1] != 0]
             false_eqs = [l for l in eqs if l[1] == 0]
             g1_second = (g == 'G1' and not true_eqs and len(false_eqs) == 1)
-            if not g1_second and (len(true_eqs) != 1 or pth.labels.index(true_eqs[0]) != len(pth.labels) - 1):
+            if not g1_second and (len(true_eqs) != 1 or labels_n.index(true_eqs[0]) != len(labels_n) - 1):
                 rep.fail('GUARD', '%s:return-under-one-match' % g, 'a point is returned without its own candidate test succeeding (labels %r)' % ([(l[0][0], l[1]) for l in pth.labels],), where)
                 continue
             lab = false_eqs[0][0] if g1_second else true_eqs[0][0]
@@ -172,7 +191,7 @@ def rules(fx, rep):
                 if okneg:
                     parts = [sg[1], sg[2]]
                     ys = [p_ for p_ in parts if isinstance(p_, tuple) and p_[0] == 'sgn0' and p_[1] == yplace]
-                    ts = [p_ for p_ in parts if isinstance(p_, tuple) and p_[0] == 'sgn0' and p_[1] == (('*', 1), ())]
+                    ts = [p_ for p_ in parts if isinstance(p_, tuple) and p_[0] == 'sgn0' and (p_[1] == (('*', 1), ()) and not (ys and p_ is ys[0]) or (isinstance(p_[3], Lin) and p_[3] == at('t')))]
                     okneg = len(ys) == 1 and len(ts) == 1
                     why = 'negate_if argument is not sgn0(y) ^ sgn0(t)'
                     if okneg:
@@ -241,7 +260,10 @@ def rules(fx, rep):
         if g == 'G1':
             rep.check(not diverges, 'PANIC', 'G1:no-panic-edge', 'no diverging path', 'diverging paths: %r' % ([d[1] for d in diverges],), where)
         else:
-            ok = len(diverges) == 1 and all(l[1] == 0 for l in diverges[0][0].labels) and len(diverges[0][0].labels) == 8
+            def failed_(l):
+                # the candidate test of this trial failed (`==` not taken or `!=` taken)
+                return isinstance(l[0], tuple) and l[0] and l[0][0] in ('eq', 'ne') and ((l[1] != 0) != (l[0][0] == 'eq'))
+            ok = len(diverges) == 1 and all(failed_(l) for l in diverges[0][0].labels) and len(diverges[0][0].labels) == 8
             rep.check(ok, 'PANIC', 'G2:terminal-panic-only-after-all-trials', 'the only panic edge lies after all 4+4 trials failed; table completeness + candidate shape make that infeasible',
                       'panic edges: %r' % ([(len(d[0].labels), d[1]) for d in diverges],), where)
 
